@@ -38,6 +38,7 @@ type ServerCfg struct {
 	Medias         int // medias of the served stream (default 2)
 	ExtraFormats   int // additional formats offered by the first media (default 0)
 	Multicast      bool // offer multicast delivery (224.1.0.0/16, a free port pair)
+	BackChannel    int  // n > 0: a back-channel audio media is inserted at index n-1 of the served stream
 	AuthUser       string
 	AuthPass       string
 	IP             string // listen address, default 127.0.0.1
@@ -404,6 +405,13 @@ func Start(cfg ServerCfg) (*Bed, error) {
 		n = 2
 	}
 	b.Desc = DefaultDescX(n, cfg.ExtraFormats)
+	if k := cfg.BackChannel; k > 0 && k-1 <= len(b.Desc.Medias) {
+		bc := &description.Media{Type: description.MediaTypeAudio, IsBackChannel: true,
+			Formats: []format.Format{&format.G711{PayloadTyp: 0, MULaw: true, SampleRate: 8000, ChannelCount: 1}}}
+		ms := append([]*description.Media(nil), b.Desc.Medias[:k-1]...)
+		ms = append(ms, bc)
+		b.Desc.Medias = append(ms, b.Desc.Medias[k-1:]...)
+	}
 	b.Stream = &gortsplib.ServerStream{Server: b.S, Desc: b.Desc}
 	if err := b.Stream.Initialize(); err != nil {
 		b.S.Close()
